@@ -1,2 +1,93 @@
-/- C02 (placeholder while the second-order theorems are written) -/
-import RateslibModel.Model.Dual
+/-
+C02  Second-order automatic differentiation is exact and consistent with first order.
+
+Scope of what is PROVED here (see DESIGN.md, "C02 partial"): the second-order chain rules the Dual2
+code applies — written as scalar 2-jets `J2 = (value, first derivative, HALF second derivative)`,
+the projection of a Dual2 number on a direction — are sound for every formula of C01's grammar, and
+agree with the first-order rules in value and first derivative; the read-back doubles the stored
+half-Hessian; converting down drops only the Hessian.  The refinement from the list-level `Dual2`
+arithmetic of Model/Dual.lean to these jets (alignment of Hessian blocks by variable name) is not yet
+a theorem; it is covered by the correspondence run (Hessian by name pair, symmetric-Hessian oracle)
+and by C03's exhaustive layout run.
+-/
+import RateslibModel.Analysis.Jets2Sound
+import RateslibModel.Props.C17
+namespace Rateslib
+open Real Expr Filter Topology
+
+/-- Second-order exactness of the rules: along any curve of leaf values that is twice differentiable
+at `t₀` with 2-jets `j i`, the formula `t ↦ evalR e (u t)` has value, first derivative and half second
+derivative given by the three components of `evalJ2 e j` — the Dual2 rules of mul.rs, pow.rs,
+math_funcs.rs, signed.rs, neg.rs projected on the direction of the curve. -/
+theorem C02_second_exact (e : Expr) (u : Nat → ℝ → ℝ) (t₀ : ℝ) (j : Nat → J2)
+    (hu : ∀ i, Jet2At (u i) t₀ (j i).v0 (j i).v1 (j i).v2) (hd : Dom2 e (fun i => u i t₀)) :
+    Jet2At (fun t => evalR e (fun i => u i t)) t₀ (evalJ2 e j).v0 (evalJ2 e j).v1 (evalJ2 e j).v2 :=
+  jet2_sound e u t₀ j hu hd
+
+theorem dom_of_dom2 (e : Expr) (v : Nat → ℝ) (h : Dom2 e v) : Dom e v := by
+  induction e with
+  | leaf i => trivial
+  | const c => trivial
+  | add a b iha ihb => exact ⟨iha h.1, ihb h.2⟩
+  | sub a b iha ihb => exact ⟨iha h.1, ihb h.2⟩
+  | mul a b iha ihb => exact ⟨iha h.1, ihb h.2⟩
+  | div a b iha ihb => exact ⟨iha h.1, ihb h.2.1, h.2.2⟩
+  | neg a iha => exact iha h
+  | powc a p iha => exact ⟨iha h.1, Or.inl h.2⟩
+  | exp a iha => exact iha h
+  | log a iha => exact ⟨iha h.1, h.2⟩
+  | ncdf a iha => exact iha h
+  | nicdf a iha => exact ⟨iha h.1, h.2⟩
+  | abs a iha => exact ⟨iha h.1, h.2⟩
+
+theorem jet2_quadratic (a0 a1 a2 : ℝ) :
+    Jet2At (fun t => a0 + a1 * t + a2 * (t * t)) 0 a0 a1 a2 := by
+  have hid : Jet2At (fun t : ℝ => t) 0 0 1 0 :=
+    ⟨rfl, fun _ => 1, Eventually.of_forall fun t => hasDerivAt_id t, rfl,
+      by simpa using hasDerivAt_const (0 : ℝ) (1 : ℝ)⟩
+  have h1 := (Jet2At.const a1 0).mul hid
+  have h2 := (Jet2At.const a2 0).mul (hid.mul hid)
+  exact (((Jet2At.const a0 0).add h1).add h2).of_eq (by ring) (by ring) (by ring)
+
+/-- The same value and gradient as the first-order type: the value and first-derivative components
+of the second-order rules coincide with the first-order rules of C01, wherever the formula is twice
+differentiable. -/
+theorem C02_proj (e : Expr) (j : Nat → J2) (hd : Dom2 e (fun i => (j i).v0)) :
+    (evalJ2 e j).v0 = (evalJ e (fun i => ((j i).v0, (j i).v1))).1 ∧
+    (evalJ2 e j).v1 = (evalJ e (fun i => ((j i).v0, (j i).v1))).2 := by
+  let u : Nat → ℝ → ℝ := fun i t => (j i).v0 + (j i).v1 * t + (j i).v2 * (t * t)
+  have hu2 : ∀ i, Jet2At (u i) 0 (j i).v0 (j i).v1 (j i).v2 := fun i => jet2_quadratic _ _ _
+  have hu0 : ∀ i, u i 0 = (j i).v0 := fun i => by simp [u]
+  have hd2 : Dom2 e (fun i => u i 0) := by simpa only [hu0] using hd
+  have S2 := jet2_sound e u 0 j hu2 hd2
+  have S1 := jet_sound e u (fun i => (j i).v1) 0 (fun i => (hu2 i).hasDerivAt) (dom_of_dom2 e _ hd2)
+  simp only [hu0] at S1
+  refine ⟨?_, ?_⟩
+  · rw [S1.1, ← S2.val]; simp only [hu0]
+  · exact S2.hasDerivAt.unique S1.2
+
+/-- Converting the second-order result down to first order loses nothing but the Hessian. -/
+theorem C02_from_drops_only_hessian {α : Type} (d : Dual2 α) :
+    (Dual.ofDual2 d).real = d.real ∧ (Dual.ofDual2 d).vars = d.vars ∧ (Dual.ofDual2 d).dual = d.dual :=
+  ⟨rfl, rfl, rfl⟩
+
+/-- The Hessian read back per variable pair is twice the stored half-Hessian, in the order asked for
+(so with `C02_second_exact`: the read-back quadratic form `hᵀ H h` is the true second directional
+derivative). -/
+theorem C02_readback {α : Type} [CommRing α] (d : Dual2 α) (vs : List String) (hd : d.WF) (hv : vs.Nodup) :
+    d.gradient2 vs = vs.map (fun v => vs.map (fun w => 2 * Dual2.den2 d v w)) :=
+  C17_gradient2 d vs hd hv
+
+/-- The product rule's cross term is symmetrised: as a quadratic form `½(αβᵀ + βαᵀ)` contributes
+`a1·b1`, and the jet product is commutative (the Hessian of a product does not depend on operand
+order). -/
+theorem C02_mul_comm (a b : J2) : mulJ2 a b = mulJ2 b a := by
+  simp only [mulJ2, J2.mk.injEq]
+  refine ⟨by ring, by ring, by ring⟩
+
+/-! Non-vacuity -/
+example : Dom2 (.div (.log (.mul (.leaf 0) (.leaf 1))) (.leaf 2)) (fun i => (i : ℝ) + 2) := by
+  simp only [Dom2, evalR, true_and]
+  norm_num
+
+end Rateslib
